@@ -620,7 +620,8 @@ fn check_line_state(ch: &mut Choices, cx: &mut Ctx) -> R {
     cx.label("line rows: resumed and cloned");
     let big = ch.bool();
     let h = crate::c04::gen_header(ch);
-    let ops = crate::c04::gen_program(ch, &h);
+    // half of the programs contain tombstoned regions (rows withheld, sequences withheld entirely)
+    let ops = if ch.bool() { crate::c04::gen_tombstone_program(ch, &h) } else { crate::c04::gen_program(ch, &h) };
     let prog = crate::c04::encode_program(&ops, &h, big);
     let (bytes, _) = build_line(&h, big, &prog);
     let endian = if big { RunTimeEndian::Big } else { RunTimeEndian::Little };
